@@ -151,4 +151,76 @@ def Inst.elemMin4 (d : Desc) : Inst → Bool
 /-- every element type of a vector / dynamic tuple / dictionary encodes to at least 4 bytes -/
 def Desc.elemMin4 (d : Desc) : Bool := d.insts.toList.all (Inst.elemMin4 d)
 
+/-! ### productivity: every cycle of type references that consumes no input is broken (rank certificate) -/
+
+def rkAt (rk : List Nat) (i : Nat) : Nat := (rk[i]?).getD 0
+
+/-- rank of a call: a *boxed* struct reads its 4-byte tag before anything else, so it needs no rank -/
+def rkOf (d : Desc) (rk : List Nat) (ty : Nat) (bare : Bool) : Nat :=
+  match bare, d.get? ty with
+  | false, some (.struct _) => 0
+  | _, _ => rkAt rk ty
+
+/-- references followed before any input is consumed (fields of a bare struct, tuple elements) go to a
+strictly smaller rank; unions, vectors and dictionaries read 4 bytes first and are unconstrained -/
+def Inst.productive (d : Desc) (rk : List Nat) (i : Nat) : Inst → Bool
+  | .struct s => s.fields.all (fun f => decide (rkOf d rk f.ty f.bare < rkAt rk i))
+  | .array a => !a.isTuple || decide (rkOf d rk a.elem.ty a.elem.bare < rkAt rk i)
+  | _ => true
+
+/-- `rk` is a rank certificate for `d` (one rank per instance, each ≤ number of instances) -/
+def Desc.productive (d : Desc) (rk : List Nat) : Bool :=
+  rk.all (fun r => decide (r ≤ d.insts.size)) &&
+  (List.range d.insts.size).all (fun i => match d.get? i with | some inst => inst.productive d rk i | none => true)
+
+/-- fuel that always suffices for an input of `len` bytes -/
+def fuelFor (d : Desc) (len : Nat) : Nat := (len + 1) * (d.insts.size + 1)
+
+/-! ### well-formedness: everything the reader looks up exists (no `.error .desc`) -/
+
+def isNumPrim : PrimK → Bool
+  | .u32 | .i32 | .f32 | .u64 | .i64 | .f64 | .byte => true
+  | _ => false
+
+/-- the instance is a numeric primitive (`#` in particular): its reader yields `Val.nat` -/
+def Desc.isNumTy (d : Desc) (ty : Nat) : Bool :=
+  match d.get? ty with
+  | some (.prim k) => isNumPrim k
+  | _ => false
+
+/-- a nat argument can be evaluated: parameter in range / earlier numeric field
+(`nums` = for each earlier field, whether its type is a numeric primitive) -/
+def NatArg.okIn (np : Nat) (nums : List Bool) : NatArg → Bool
+  | .num _ => true
+  | .param i => decide (i < np)
+  | .field i => (nums[i]?).getD false
+
+/-- the referenced type exists and receives at least as many nat arguments as it has parameters -/
+def Desc.refOk (d : Desc) (np : Nat) (nums : List Bool) (f : Field) : Bool :=
+  (match d.get? f.ty with | some inst => decide (inst.nparams ≤ f.natArgs.length) | none => false) &&
+  f.natArgs.all (NatArg.okIn np nums)
+
+def Desc.fieldOk (d : Desc) (np : Nat) (nums : List Bool) (f : Field) : Bool :=
+  d.refOk np nums f && (match f.mask with | none => true | some (a, _) => a.okIn np nums)
+
+def Desc.fieldsOk (d : Desc) (np : Nat) : List Bool → List Field → Bool
+  | _, [] => true
+  | nums, f :: fs => d.fieldOk np nums f && d.fieldsOk np (nums ++ [d.isNumTy f.ty]) fs
+
+def Inst.wf (d : Desc) : Inst → Bool
+  | .prim _ => true
+  | .struct s => d.fieldsOk s.nparams [] s.fields
+  | .union u =>
+    u.elemNatArgs.all (NatArg.okIn u.nparams []) &&
+    u.variants.all (fun p =>
+      match d.get? p.1 with
+      | some inst => decide (inst.nparams ≤ u.elemNatArgs.length)
+      | none => false)
+  | .array a => d.refOk a.nparams [] a.elem && (!(a.isTuple && a.dynamic) || decide (1 ≤ a.nparams))
+  | .dict a => d.refOk a.nparams [] a.elem && (dictKeyPrim d a).isSome
+
+/-- all type indices in range, nat-argument references in range (parameters) or pointing to earlier numeric
+fields (masks included), parameter counts of references match, dictionary keys primitive -/
+def Desc.wf (d : Desc) : Bool := d.insts.toList.all (Inst.wf d)
+
 end TLVerif.Codec
